@@ -36,7 +36,7 @@ TYPES = [None, (0,), (1,), (2,), (0, 1), (0, 2), (1, 2), (0, 1, 2)]
 
 def setup(ctx):
     from gaddlemaps import Alignment
-    _cov.watch(Alignment.__dict__['align_molecules'], 'Alignment.align_molecules')
+    _cov.watch_attr(Alignment, 'align_molecules', 'Alignment.align_molecules')
     import gaddlemaps._alignment as A
     _cov.watch(A.remove_hydrogens)
     _cov.start()
